@@ -462,6 +462,12 @@ def h_emplace_back(wp, n, args, obj):
     wp.env[f'{s}.hits'] = V(f'(+ {wp.env[s + ".hits"].t} {wp.f(second, "cnt")})', 'Int')
     wp.env[f'{s}.shuffles_at'] = V(ITE(here, wp.env[f'{wp.input}.shuffles'].t, wp.env[f'{s}.shuffles_at'].t), 'Int')
     wp.env[f'{s}.size'] = V(f'(+ {k} 1)', 'Int')
+    for a in args:      # a vector handed over with std::move is gone: any later use is outside the model
+        m = look(a)
+        if m.get('kind') == 'CallExpr' and look(m['inner'][0]).get('referencedDecl', {}).get('name') == 'move':
+            v = look(m['inner'][1])
+            if v.get('kind') == 'DeclRefExpr':
+                wp.env[v['referencedDecl']['name']] = V(v['referencedDecl']['name'], 'Moved')
     return V('0', 'Int', 'int')
 
 
